@@ -18,7 +18,7 @@ CONSTANTS Fam,        \* which family of inputs
 Seqs(S, n) == UNION {[1..k -> S] : k \in 1..n}
 NoNaN(x) == [i \in 1..Len(x) |-> FALSE]
 Blank == [op |-> "", est |-> "", kind |-> "single", U |-> Unit, v |-> <<>>, x |-> <<>>, nan |-> <<>>, WU |-> 1, w |-> <<>>,
-          wx |-> <<>>, wnan |-> <<>>, flag |-> FALSE, hasinit |-> FALSE, init |-> 0, c |-> 0, fn |-> 1, fd |-> 1, wn |-> 0, wd |-> 0]
+          wx |-> <<>>, wnan |-> <<>>, wfine |-> FALSE, ws |-> 0, flag |-> FALSE, hasinit |-> FALSE, init |-> 0, c |-> 0, fn |-> 1, fd |-> 1, wn |-> 0, wd |-> 0]
 (* par = <<flag, hasinit, wn, wd>>; shift pairs use c = 5 grid units, scale pairs the factor 2; initial = 1 grid unit *)
 Mk(e, kind, v, w, par) ==
     [Blank EXCEPT !.op = IF kind = "single" THEN e ELSE e \o "." \o kind, !.est = e, !.kind = kind, !.v = v,
